@@ -194,6 +194,28 @@ def _caller_names():
     return f1.f_code.co_name, (f2.f_code.co_name if f2 is not None else '')
 
 
+def _within(names, depth=6):
+    """is one of the functions `names` among the nearest `depth` callers of the instrumented attribute access?
+    (the access itself may sit in a private helper extracted from that function: a refactoring that moves the
+    very same read / write into a helper must not change the observed effect trace)"""
+    f = sys._getframe(2)
+    for _ in range(depth):
+        if f is None:
+            return False
+        if f.f_code.co_name in names:
+            return True
+        if f.f_code.co_name in KNOWN_FUNCS:
+            return False        # another function of the protocol, not a helper of the one asked for
+        f = f.f_back
+    return False
+
+
+# names of the functions that make up the wake-up / dispatch protocol (see monitored_codes)
+KNOWN_FUNCS = {'_fire', 'tick', '_flush', '_dispatcher', 'run', 'fireEvent', 'append', 'dispatchEvents', '__len__',
+               'reduce_time_left', '_on_generate_events', 'resume', '_read_ctrl', '_generate_events', '_process',
+               'time_left'}
+
+
 def make_traced(real_ge, real_manager, real_eq):
     class generate_events(real_ge):
         def _get_tl(self):
@@ -232,8 +254,7 @@ def make_traced(real_ge, real_manager, real_eq):
             c = CTL
             me = c.me() if c else None
             if me is not None and c.expect_hread.get(me):
-                n1, _ = _caller_names()
-                if n1 == 'reduce_time_left':
+                if _within(('reduce_time_left',)):
                     c.expect_hread[me] = False
                     b = 1 if _has_resume(v) else 0
                     c.effect(me, f'lHsetR {b}' if me == 0 else f'fHsetR {me} {b}')
@@ -257,8 +278,7 @@ def make_traced(real_ge, real_manager, real_eq):
             c = CTL
             me = c.me() if c else None
             if me is not None and me != 0:
-                n1 = sys._getframe(1).f_code.co_name
-                if n1 == '_fire':
+                if _within(('_fire',), 3):
                     hk = 'none' if v is None else ('ge' if isinstance(v, generate_events) else 'other')
                     c.effect(me, f'fHr {me} {hk}')
             return v
@@ -293,7 +313,7 @@ def make_traced(real_ge, real_manager, real_eq):
             n = collections.deque.__len__(self)
             c = CTL
             me = c.me() if c else None
-            if me == 0 and self is c.m._queue._queue and sys._getframe(1).f_code.co_name == 'dispatchEvents':
+            if me == 0 and self is c.m._queue._queue and _within(('dispatchEvents',), 3):
                 c.effect(me, f'snap {n}')
             return n
 
